@@ -510,6 +510,31 @@ def obligations(tier, rng):
                     continue                                      # quick: every replacement (every other one on two templates), a third of the insertions
                 out.append(ob('C14', 'chars', 'char1/%s/T%d/%s@%d/%r' % (kind, ti, mode, i, t), template=_mark(t, i, mode), k=1, kind=kind, consts=[list(c) for c in consts],
                               max_paths=4000, wall=600, validate=1, again=(not quick or i % 4 == 0)))      # quick: the second parse() on every fourth position
+    # literals: one arbitrary character at every position of a number that already carries a separator, an exponent or a radix prefix
+    # (what the lexer accepts as one literal and what int()/float()/Decimal() read differ in such corners: `1__0`, `1_e1`, `0x_F`)
+    for lit in ['1_0', '2.5_0', '0xF_F', '0b1_1', '1e1_0', '1_0.2_5e-0_1']:
+        for pre, post in [('out = a > ', ''), ('out = always[0,1](a + ', ' > b)')]:
+            t = pre + lit + post
+            for mode in ('r', 'i'):
+                for i in range(len(pre), len(pre) + len(lit) + (1 if mode == 'i' else 0)):
+                    if post and (quick or mode == 'r'):
+                        continue
+                    out.append(ob('C14', 'chars', 'literal/dt/%s@%d/%r' % (mode, i, t), template=_mark(t, i, mode), k=1, kind='dt', max_paths=4000, wall=600, validate=1))
+    # declarations, annotations and imports: an arbitrary character in a text with a constant, a ROS-topic annotation and a sub-formula;
+    # imported types that do not exist / cannot be constructed / have no such field (concrete texts: a module name cannot be symbolic)
+    t = 'const float c = 1\n@ topic(c, t)\nout = a > c'
+    for i in range(len(t)):
+        if quick and i % 2 and not (24 <= i <= 31):
+            continue
+        out.append(ob('C14', 'chars', 'annot/dt/r@%d/%r' % (i, t), template=_mark(t, i, 'r'), k=1, kind='dt', max_paths=4000, wall=600, validate=1))
+    for t in ['from os import Foo\nFoo w\nout = w.a > 1', 'from collections import namedtuple\nnamedtuple w\nout = w.a > 1', 'from nosuchmodule import T\nT w\nout = w.a > 1',
+              'from vf.objmsg import Msg\nMsg w\nout = w.x > 1', 'from vf.objmsg import Msg\nMsg w\nout = w.nofield > 1', 'from vf.objmsg import Msg\nMsg w\nout = w > 1',
+              'from vf.objmsg import Msg\nMsg w\n@ topic(w, t)\nout = w.x > 1', 'T w\nout = w.a > 1', 'from os import path\npath w\nout = w.a > 1',
+              'const float c = 1\n@ topic(c, t)\nout = a > c', 'input float w\n@ topic(w, t)\nout = w > 1', '@ topic(w, t)\nout = a > 1']:
+        out.append(ob('C14', 'chars', 'imports/dt/%r' % t, template=t, k=0, kind='dt', validate=0))
+    # very deep nesting: the recursive-descent parser runs out of stack - that must be an RTAMTException too (concrete texts, 1000 levels)
+    for name, t in [('parens', 'out = ' + '(' * 1000 + 'a' + ')' * 1000 + ' > 1'), ('sum', 'out = ' + 'a + ' * 1000 + 'a > 1'), ('not', 'out = ' + 'not ' * 1000 + '(a > 1)')]:
+        out.append(ob('C14', 'chars', 'deep/dt/%s-1000' % name, template=t, k=0, kind='dt', validate=0))
     # degenerate texts (no arbitrary character at all: the k = 0 members of the family)
     for t in ['', ' ', ';', '\n', ';;', '// c', '/* c */']:
         out.append(ob('C14', 'chars', 'char0/dt/%r' % t, template=t, k=0, kind='dt', validate=0))
